@@ -22,7 +22,8 @@ def shard_config(shard, tier):
     """two of eight shards run under other documented default densities: solids/enzymes without volume (inf), and
     finite densities other than 1"""
     return {5: {'default_solid_density': float('inf'), 'default_enzyme_density': float('inf')},
-            6: {'default_solid_density': 2.5, 'default_enzyme_density': 0.4}}.get(shard % 8)
+            6: {'default_solid_density': 2.5, 'default_enzyme_density': 0.4},
+            2: {'default_solid_density': float('inf')}}.get(shard % 8)
 
 
 REQUIRED_CLASSES = {'quick': ['sel:substance', 'sel:class', 'obj:c', 'obj:p'],
